@@ -211,3 +211,36 @@ func verifCapacityScript(group string) {
 
 func VerifH_C03_api_capacity_root() { verifCapacityScript("") }
 func VerifH_C03_api_capacity_group_thorough() { verifCapacityScript("/g") }
+
+// duplicates requested after siblings that sort before / after the name were created (creation order is not name order)
+func VerifH_C03_api_duplicate_orders() {
+	fw, err := CreateForWrite("c03d.h5", CreateTruncate)
+	vrt.AssertNoErr(err, "create-ok")
+	names := []string{"/alpha", "/mid", "/zeta"}
+	perm := [][]int{{0, 1, 2}, {2, 1, 0}, {1, 2, 0}, {2, 0, 1}}[vrt.Choice(4)]
+	for _, i := range perm {
+		if vrt.Bool() {
+			_, err = fw.CreateGroup(names[i])
+		} else {
+			_, err = fw.CreateDataset(names[i], Int32, []uint64{1})
+		}
+		vrt.AssertNoErr(err, "valid-creation-accepted")
+	}
+	dup := names[vrt.Choice(3)]
+	switch vrt.Choice(3) {
+	case 0:
+		_, err = fw.CreateGroup(dup)
+	case 1:
+		_, err = fw.CreateDataset(dup, Int32, []uint64{1})
+	default:
+		err = fw.CreateSoftLink(dup, "/alpha")
+	}
+	vrt.Assert(err != nil, "duplicate-name-rejected")
+	vrt.AssertNoErr(fw.Close(), "close-ok")
+	f, err := Open("c03d.h5")
+	vrt.AssertNoErr(err, "reopen-ok")
+	_, dupSeen := verifTree(f)
+	vrt.Assert(!dupSeen, "no-name-twice")
+	vrt.Covered("duplicates-checked")
+	_ = f.Close()
+}
